@@ -144,6 +144,17 @@ impl CgrComputer {
     }
 }
 
+#[cfg(feature = "verif")]
+impl CgrComputer {
+    pub fn verif_set_max_memory(&mut self, memory: usize) {
+        self.memory = memory;
+    }
+
+    pub fn verif_vectorise_one(&self, seq: &[u8]) -> Result<Vec<Point>, String> {
+        self.vectorise_one(seq)
+    }
+}
+
 #[cfg(test)]
 mod tests {
     use super::*;
